@@ -67,8 +67,11 @@ def replay(rec: Dict[str, Any]) -> List[Tuple[str, Dict[str, Any], str]]:
                     kind = "root" if not m.parts else ("index" if isinstance(last, int) else ("intlike-name" if str(last).lstrip("+-").isdigit() else "name"))
                     if any(isinstance(p, str) and p.lstrip("-").isdigit() and abs(int(p)) > 2**53 - 1 for p in m.parts):
                         kind = "member-name-is-an-integer-beyond-the-index-limit"
-                    out.append((f"{disc}|last:{kind}", {"query": text, "doc": show(tbl.docs[d]["doc"]), "match_parts": list(m.parts),
-                                                        "tagged": rec}, disc))
+                    sig = f"{disc}|last:{kind}"
+                    if not any(sig == o[0] for o in out):
+                        out.append((sig, {"query": text, "doc": show(tbl.docs[d]["doc"]), "match_parts": list(m.parts), "tagged": rec}, disc))
+                    if kind == "member-name-is-an-integer-beyond-the-index-limit" and disc.startswith("pointer-text:"):
+                        continue        # the recorded finding must not hide what else is wrong with the other matches
                     return out
     return out
 
